@@ -102,6 +102,19 @@ CLAIMS = {
         'The ownership invariant of the thread model for all schedules is not proved yet (DESIGN).',
    technique='race detector + sequential-result comparison; Coq model-level theorems as support (technique family applies only to the logic part)',
    ref='section 9, C11'),
+ 'C09': dict(
+   category='proof',
+   text='Every `range` over a map in the repository (with the syntactic class of its loop body) and every %p verb is re-derived from '
+        'source with go/types on every run; the theorem C09_sites_accounted says each one is an accounted site, and each accounted '
+        'loop shape is order-free by a generic Coq theorem quantified over all visiting orders (first match with mutually exclusive '
+        'keys; copying entries with distinct keys; clearing a map; collect-sort-walk). A new map range, a dropped sort or a new '
+        'pointer format breaks the obligation. The premises of the generic theorems at each site are argued in DESIGN, and every '
+        'input is run 8x in one process, in 3 processes (one with GOGC=1) and under permutations of AddType/AddRule in both '
+        'registration styles with all public results (incl. a hash of the error message) compared byte for byte.',
+   note='Trusted: Coq kernel incl. vm_compute; translator gotables NondetSites (go/types with the source importer); the per-site argument '
+        'that the premises hold (one type rule per node; distinct copied keys); harness. Goroutine scheduling is C11.',
+   technique='Coq proofs of order-freeness per loop shape + source-regenerated inventory of map ranges + repetition/permutation exploration',
+   ref='section 9, C09'),
 }
 
 def main():
